@@ -2484,10 +2484,12 @@ func (x *actorSystem) beginRelocation(peerAddress string, peerState *internalpb.
 	defer x.relocationJobsLocker.Unlock()
 
 	if _, exists := x.relocationJobs[peerAddress]; exists {
+		verifhook.At("reloc.begin", peerAddress, 0, 0)
 		return false
 	}
 
 	x.relocationJobs[peerAddress] = peerState
+	verifhook.At("reloc.begin", peerAddress, 1, 0)
 	return true
 }
 
@@ -2506,6 +2508,7 @@ func (x *actorSystem) relocationJob(peerAddress string) (*internalpb.PeerState, 
 func (x *actorSystem) endRelocation(peerAddress string) {
 	x.relocationJobsLocker.Lock()
 	delete(x.relocationJobs, peerAddress)
+	verifhook.At("reloc.end", peerAddress, 0, 0)
 	x.relocationJobsLocker.Unlock()
 }
 
